@@ -127,6 +127,8 @@ def judge_send(lines, init):
             what = " ".join(op)
             if kv(ck, "prefix") != "1":
                 bad.append(f"forwarded bytes are not a prefix of the payload ({what})")
+            if kv(ck, "stalltimeout") == "1":
+                bad.append(f"a reset arrived while the runtime's body was stalled, yet the copy stayed parked in Read for 20 s: the reset did not close the runtime's connection, the response was ended only by the harness's watchdog ({what})")
             if restricted and n > limit + 1:
                 bad.append(f"{n} bytes forwarded, more than limit+1 = {limit + 1} ({what})")
             if eor not in ("Complete", "Oversized", "Truncated"):
@@ -416,7 +418,7 @@ def report(ctx, fam, cid, lines, consts, mism_line=None):
         sig = f"wall:rate={kv(wl, 'rate')} burst={kv(wl, 'burst')} paylen={kv(wl, 'paylen')}"
     if fam == "http":
         wl = next((l for l in flines if l.startswith("# http ")), "").split()
-        sig = f"http:mode={kv(wl, 'mode')} max={kv(wl, 'max')} paylen={kv(wl, 'paylen')} fail={kv(wl, 'fail')}"
+        sig = f"http:mode={kv(wl, 'mode')} max={kv(wl, 'max')} paylen={kv(wl, 'paylen')} fail={kv(wl, 'fail')} frm={kv(wl, 'frm')}"
     if len(sig) > 400:
         import hashlib
         sig = sig[:360] + "#" + hashlib.sha1(sig.encode()).hexdigest()[:12]
